@@ -143,6 +143,7 @@ V3(d, s, R, fuel) ==
                  names == CASE f = "f1" -> <<"f1">> [] f = "f2" -> <<"f2">> [] f = "f1 and f2" -> <<"f1", "f2">>
                             [] f = "n1" -> <<"n1">> [] f = "n2" -> <<"n2">> [] f = "n1 and n2" -> <<"n1", "n2">>
                             [] OTHER -> <<>>
+             \* ("f1" names a string format and a number format: the document's kind selects the predicate)
              IN IF d.k = "str" THEN (IF names = <<>> THEN "X" ELSE B3(\A i \in DOMAIN names : StrFmtOk(names[i], d.s)))
                 ELSE IF d.k = "num" THEN (IF names = <<>> THEN "X" ELSE B3(\A i \in DOMAIN names : NumFmtOk(names[i], d.n)))
                 ELSE "T"
